@@ -161,8 +161,8 @@ func (idx *WorkspaceIndex) addFileIndex(path string, fi *FileIndex) {
 	for _, date := range fi.Dates {
 		idx.dateCounts[date]++
 	}
-	for payee, postings := range fi.PayeeTemplates {
-		idx.payeeTemplates[payee] = postings
+	for payee := range fi.PayeeTemplates {
+		idx.restorePayeeTemplate(payee)
 	}
 	idx.refreshDerived()
 }
@@ -198,8 +198,25 @@ func (idx *WorkspaceIndex) removeFileIndex(path string, fi *FileIndex) {
 	}
 	for payee := range fi.PayeeTemplates {
 		delete(idx.payeeTemplates, payee)
+		idx.restorePayeeTemplate(payee)
 	}
 	idx.refreshDerived()
+}
+
+// restorePayeeTemplate sets a payee's template to that of the indexed file with the
+// smallest path that has one. The stored template is thus a function of the indexed
+// files alone: it neither vanishes when another file with the same payee is removed or
+// replaced, nor depends on the order in which files were indexed.
+func (idx *WorkspaceIndex) restorePayeeTemplate(payee string) {
+	best := ""
+	for path, other := range idx.fileIndexes {
+		if _, ok := other.PayeeTemplates[payee]; ok && (best == "" || path < best) {
+			best = path
+		}
+	}
+	if best != "" {
+		idx.payeeTemplates[payee] = idx.fileIndexes[best].PayeeTemplates[payee]
+	}
 }
 
 func (idx *WorkspaceIndex) decrementBy(counts map[string]int, key string, amount int) {
